@@ -25,6 +25,7 @@ mod p16;
 mod p15;
 mod p14b;
 mod p17;
+mod p13;
 // MODULES (keep this list and the two dispatch tables below in sync)
 
 use std::io::{self, BufRead, Write, BufWriter};
@@ -48,6 +49,7 @@ pub fn dispatch_exec(op: &str, a: &[i64]) -> Option<String> {
   if let Some(r) = p15::exec(op, a) { return r; }
   if let Some(r) = p14b::exec(op, a) { return r; }
   if let Some(r) = p17::exec(op, a) { return r; }
+  if let Some(r) = p13::exec(op, a) { return r; }
   // DISPATCH-EXEC
   Some("bad-op".to_string())
 }
@@ -72,6 +74,7 @@ pub fn dispatch_enum(name: &str, args: &[String], w: &mut dyn Write) -> bool {
   if p15::run_enum(name, args, w) { return true; }
   if p14b::run_enum(name, args, w) { return true; }
   if p17::run_enum(name, args, w) { return true; }
+  if p13::run_enum(name, args, w) { return true; }
   // DISPATCH-ENUM
   false
 }
